@@ -426,6 +426,12 @@ class LazyStackedTensorDict(TensorDictBase):
     @_fails_exclusive_keys
     def unflatten_keys(self, separator: str = ".", inplace: bool = False) -> T: ...
 
+    def _flatten_keys_inplace(self, separator, is_leaf):
+        # each member keeps its own tensors
+        for td in self.tensordicts:
+            td._flatten_keys_inplace(separator=separator, is_leaf=is_leaf)
+        return self
+
     @property
     def device(self) -> torch.device | None:
         # devices might have changed, so we check that they're all the same
